@@ -322,7 +322,7 @@ Definition xcolumns_sizes (items : xc_items) (fp dc mw : Z) (s : size) : list (Z
                   else if x_flow xi then [if 0 <? width then i_rows (xc xi) width else 0]
                   else if is_cpack o then [if 0 <? width then snd (x_pack xi) else 0]
                   else []) zipped in
-      let max_height := match hs with [] => 1 | _ => zmaxl hs end in
+      let max_height := Z.max 1 (zmaxl hs) in
       map (fun p : Z * (copt * bool * xinfo) => let '(width, (o, isbox, xi)) := p in
              if isbox then (width, max_height, (width, Some max_height))
              else if x_flow xi then (width, (if 0 <? width then i_rows (xc xi) width else 0), (width, None))
